@@ -22,6 +22,11 @@ import HawkModel.Gen.XmaConst
   `erase` from the chain of the block's class (`getxfi b.size`) - the only chain whose head the C
   code can update.
 
+  `initx z` is hawk_xma_init over a caller-supplied buffer of exactly `z` bytes, for any `z` (no rounding: the zone the
+  allocator works with must not be one byte longer than the buffer); `init z` is the zoneptr = NULL path of `hawk -m`,
+  which rounds the size up and obtains the zone itself.  hawk_xma_calloc is `calloc`.  hawk_xma_dump only reads; the
+  driver derives what it reports from the chain.
+
   The model follows the REPAIRED code (patches/xma-*.diff): (1) the rounding of a request wraps
   around like HAWK_ALIGN_POW2 on a machine word and a wrapped request is refused, (2) the shrink
   branch of _realloc_merge stores `n->prev_size` only if `n` is inside the zone, (3) the
@@ -358,12 +363,15 @@ def realloc (s : Xma) (o n : Nat) : Except Err (Option Nat × Xma) :=
 
 /-! ### the invariant (specification vocabulary) -/
 
-/-- boundary tags along a chain: `prev` equals the size of the physical predecessor (`ps`, 0 at the zone start),
-    no free block follows a free block (`pf` = predecessor free), sizes are multiples of ALIGN and at
-    least MINALLOCSIZE -/
-def ChainOK (ps : Nat) (pf : Bool) : List Blk → Prop
+/-- boundary tags along a chain whose first header is at zone offset `c`: every header starts at a multiple of ALIGN
+    (so every block except possibly the last one of the zone has an aligned size - the last one absorbs the residue of a
+    caller-supplied zone whose size is not a multiple of ALIGN), `prev` equals the size of the physical predecessor
+    (`ps`, 0 at the zone start), no free block follows a free block (`pf` = predecessor free), sizes are at least
+    MINALLOCSIZE -/
+def ChainOK (c : Nat) (ps : Nat) (pf : Bool) : List Blk → Prop
   | [] => True
-  | b :: r => b.prev = ps ∧ ¬(pf = true ∧ b.free = true) ∧ b.size % ALIGN = 0 ∧ MINALLOC ≤ b.size ∧ ChainOK b.size b.free r
+  | b :: r => b.prev = ps ∧ ¬(pf = true ∧ b.free = true) ∧ c % ALIGN = 0 ∧ MINALLOC ≤ b.size ∧
+              ChainOK (c + HDR + b.size) b.size b.free r
 
 /-- (header offset, size) of the free blocks of a chain that starts at offset `cur` -/
 def freeOffs (cur : Nat) : List Blk → List (Nat × Nat)
@@ -379,18 +387,26 @@ def liveOffs (cur : Nat) : List Blk → List (Nat × Nat × List Nat)
 structure WF (s : Xma) : Prop where
   /-- the blocks tile the zone exactly -/
   tile : total s.blks = s.zone
-  /-- prev_size consistent, sizes aligned and large enough, no two adjacent free blocks -/
-  chain : ChainOK 0 false s.blks
+  /-- prev_size consistent, headers aligned, sizes large enough, no two adjacent free blocks -/
+  chain : ChainOK 0 0 false s.blks
   len : s.xfree.length = NCLS
   /-- no chain holds a block twice -/
   nodup : ∀ i, (fl s.xfree i).Nodup
   /-- chain `i` holds exactly the free blocks whose size is of class `i` -/
   mem : ∀ i o, o ∈ fl s.xfree i ↔ ∃ sz, (o, sz) ∈ freeOffs 0 s.blks ∧ getxfi sz = i
 
+/-- hawk_xma_calloc: hawk_xma_alloc, then `HAWK_MEMSET (ptr, 0, size)` over the requested size -/
+def calloc (s : Xma) (n : Nat) : Except Err (Option Nat × Xma) :=
+  match alloc s n with
+  | .error e => .error e
+  | .ok (none, s') => .ok (none, s')
+  | .ok (some o, s') => .ok (some o, setData s' o (List.replicate n 0))
+
 /-! ### histories -/
 
 inductive Op where
   | alloc (n : Nat)
+  | calloc (n : Nat)
   | realloc (o n : Nat)
   | free (o : Nat)
   | write (o : Nat) (d : List Nat)
@@ -400,6 +416,7 @@ deriving Repr
     `write` is the user storing `d` into a live block (ignored when it does not fit). -/
 def step (s : Xma) : Op → Xma
   | .alloc n => match alloc s n with | .ok (_, s') => s' | .error _ => s
+  | .calloc n => match calloc s n with | .ok (_, s') => s' | .error _ => s
   | .realloc o n => match realloc s o n with | .ok (_, s') => s' | .error _ => s
   | .free o => match free s o with | .ok s' => s' | .error _ => s
   | .write o d =>
